@@ -33,6 +33,7 @@ type observation struct {
 	openErr  string
 	pages    []string // per part, the text the format reader holds for it
 	names    []string // xlsx: SheetNames()
+	notes    []string // pptx: per slide, Slide(i).Notes
 	tOpened  bool
 	tErr     string
 	tCount   int
@@ -133,6 +134,7 @@ func observe(p *pkg, path string) (string, *observation) {
 				s, _ := rd.Slide(i)
 				t := s.GetText()
 				o.pages = append(o.pages, t)
+				o.notes = append(o.notes, s.Notes)
 				out = append(out, fmt.Sprintf("%d:%s", s.Index, tokenCid(p, t)))
 			}
 			line = strings.TrimSpace("ok " + strings.Join(out, " "))
@@ -236,12 +238,44 @@ func oracles(c *hx.Ctx, p *pkg, k kase, o *observation) {
 		}
 	}
 	forbidden = append(forbidden, p.Decoys...)
+	// notes of slides that are not pages (unreadable / undeclared) belong to no page
+	type strayNote struct {
+		tok, why string
+	}
+	var strayNotes []strayNote
+	for _, d := range p.Declared {
+		if d.State != stOK && d.NotesTok != "" {
+			strayNotes = append(strayNotes, strayNote{d.NotesTok, fmt.Sprintf("notes %q of declared but unreadable slide %q (state %d)", d.NotesName, d.Name, d.State)})
+		}
+	}
+	for _, d := range p.Decoys {
+		if d.NotesTok != "" {
+			strayNotes = append(strayNotes, strayNote{d.NotesTok, fmt.Sprintf("notes %q of undeclared slide %q", d.NotesName, d.Name)})
+		}
+	}
+	everywhere := func() []string { // every place where the implementation shows text
+		all := append([]string{o.tText}, o.pages...)
+		all = append(all, o.notes...)
+		return append(all, o.docPages...)
+	}
 	f := p.Fmt
 	desc := func() string {
 		var b strings.Builder
 		fmt.Fprintf(&b, "%s/%s declared=[", p.Fmt, p.Variant)
 		for _, d := range p.Declared {
-			fmt.Fprintf(&b, "{%s ref=%q name=%q st=%d} ", d.Tok, d.Ref, d.Name, d.State)
+			fmt.Fprintf(&b, "{%s ref=%q name=%q st=%d", d.Tok, d.Ref, d.Name, d.State)
+			if p.Fmt == "xlsx" {
+				fmt.Fprintf(&b, " sheetId=%d rid=%q", d.SheetID, d.ID)
+			}
+			if d.NotesRef != "" {
+				fmt.Fprintf(&b, " notes=%s target=%q member=%q", d.NotesTok, d.NotesRef, d.NotesName)
+			}
+			b.WriteString("} ")
+		}
+		for _, d := range p.Decoys {
+			if d.NotesRef != "" {
+				fmt.Fprintf(&b, "{decoy %s name=%q notes=%s target=%q member=%q} ", d.Tok, d.Name, d.NotesTok, d.NotesRef, d.NotesName)
+			}
 		}
 		b.WriteString("] zip=[")
 		for _, i := range p.ZipOrder {
@@ -255,6 +289,11 @@ func oracles(c *hx.Ctx, p *pkg, k kase, o *observation) {
 		shown := false
 		for _, d := range forbidden {
 			if strings.Contains(o.tText, d.Tok) || strings.Contains(strings.Join(o.pages, "\x00"), d.Tok) {
+				shown = true
+			}
+		}
+		for _, sn := range strayNotes {
+			if strings.Contains(strings.Join(everywhere(), "\x00"), sn.tok) {
 				shown = true
 			}
 		}
@@ -357,9 +396,82 @@ func oracles(c *hx.Ctx, p *pkg, k kase, o *observation) {
 			return fmt.Sprintf("text of declared part %d (%s) appears in %d Document pages, %d reader parts, %d times in Text(); %s", i, d.Tok, inDoc, inRd, strings.Count(o.tText, d.Tok), desc())
 		})
 	}
+	// speaker notes (pptx): the notes part's text belongs to its slide's page, and only there.
+	// Observed through Slide(i).Notes and through Text(), where a page's text runs from its
+	// own part's token to the next page's.
+	if f == "pptx" {
+		bodyAt := make([]int, len(E)+1)
+		for i, d := range E {
+			bodyAt[i] = strings.Index(o.tText, d.Tok)
+		}
+		bodyAt[len(E)] = len(o.tText)
+		for i, d := range E {
+			// a slide's own text never shows up as somebody's notes
+			inNotes := 0
+			for _, nt := range o.notes {
+				if strings.Contains(nt, d.Tok) {
+					inNotes++
+				}
+			}
+			c.Check("C18/text-leaks-pptx", inNotes == 0, k, func() string {
+				return fmt.Sprintf("text of declared slide %d (%s) appears in the notes of %d slide(s); %s", i, d.Tok, inNotes, desc())
+			})
+			if d.NotesTok == "" {
+				continue
+			}
+			own := i < len(o.notes) && strings.Contains(o.notes[i], d.NotesTok)
+			c.Check("C18/pptx-notes-in-own-page", own, k, func() string {
+				got := "<no such slide>"
+				if i < len(o.notes) {
+					got = o.notes[i]
+				}
+				return fmt.Sprintf("Slide(%d).Notes=%q does not contain the notes text %s of declared readable slide %d (%s, notes target %q -> member %q); %s", i, got, d.NotesTok, i, d.Tok, d.NotesRef, d.NotesName, desc())
+			})
+			var where []int
+			for j, nt := range o.notes {
+				if j != i && strings.Contains(nt, d.NotesTok) {
+					where = append(where, j)
+				}
+			}
+			for j, pg := range o.pages {
+				if strings.Contains(pg, d.NotesTok) {
+					where = append(where, j)
+				}
+			}
+			for j, pg := range o.docPages {
+				if j != i && strings.Contains(pg, d.NotesTok) {
+					where = append(where, j)
+				}
+			}
+			c.Check("C18/pptx-notes-leak", len(where) == 0 && strings.Count(o.tText, d.NotesTok) <= 1, k, func() string {
+				return fmt.Sprintf("notes text %s of declared readable slide %d (%s) appears on other page(s) %v / %d times in Text(); %s", d.NotesTok, i, d.Tok, where, strings.Count(o.tText, d.NotesTok), desc())
+			})
+			// in Text(): after its own slide's text and before the next slide's
+			at := strings.Index(o.tText, d.NotesTok)
+			c.Check("C18/pptx-notes-in-own-page", at >= 0, k, func() string {
+				return fmt.Sprintf("Text() does not contain the notes text %s of declared readable slide %d (%s, notes target %q -> member %q); %s", d.NotesTok, i, d.Tok, d.NotesRef, d.NotesName, desc())
+			})
+			if at >= 0 && bodyAt[i] >= 0 && bodyAt[i+1] >= 0 {
+				c.Check("C18/pptx-notes-leak", bodyAt[i] < at && at < bodyAt[i+1], k, func() string {
+					return fmt.Sprintf("in Text() the notes text %s of declared readable slide %d stands at offset %d, outside its page's text [%d,%d) (own token %s to the next page's); %s", d.NotesTok, i, at, bodyAt[i], bodyAt[i+1], d.Tok, desc())
+				})
+			}
+		}
+		for _, sn := range strayNotes {
+			shown := false
+			for _, t := range everywhere() {
+				if strings.Contains(t, sn.tok) {
+					shown = true
+				}
+			}
+			c.Check("C18/decoy-included-pptx", !shown, k, func() string {
+				return fmt.Sprintf("%s (%s) is presented although that slide is not a page; %s", sn.why, sn.tok, desc())
+			})
+		}
+	}
 	for _, d := range forbidden {
 		shown := strings.Contains(o.tText, d.Tok)
-		for _, pg := range append(append([]string{}, o.pages...), o.docPages...) {
+		for _, pg := range append(append(append([]string{}, o.pages...), o.docPages...), o.notes...) {
 			if strings.Contains(pg, d.Tok) {
 				shown = true
 			}
@@ -440,6 +552,52 @@ func RunCase(c *hx.Ctx, idx int, keep bool) {
 			c.Count(p.Fmt + "/declared!=zip-order")
 		}
 	}
+	if p.Fmt == "xlsx" && len(E) > 1 {
+		sidAsc, ridAsc := true, true
+		for i := 1; i < len(E); i++ {
+			if E[i].SheetID < E[i-1].SheetID {
+				sidAsc = false
+			}
+			if E[i].ID < E[i-1].ID {
+				ridAsc = false
+			}
+		}
+		if !sidAsc {
+			c.Count("xlsx/declared!=sheetId-order")
+		}
+		if !ridAsc {
+			c.Count("xlsx/declared!=rId-order")
+		}
+	}
+	if p.Fmt == "pptx" {
+		unreadableBefore, drift, withNotes := false, false, 0
+		for _, d := range p.Declared {
+			switch {
+			case d.State != stOK && d.State != stDangling:
+				unreadableBefore = true
+			case d.State == stOK && d.NotesTok != "":
+				withNotes++
+				if unreadableBefore {
+					drift = true
+				}
+			}
+		}
+		if withNotes > 0 {
+			c.Count("pptx/has-notes")
+		}
+		if withNotes > 1 {
+			c.Count("pptx/several-slides-with-notes")
+		}
+		if drift {
+			c.Count("pptx/notes-after-unreadable-declared")
+		}
+		for _, d := range E {
+			if d.NotesTok != "" && (strings.HasPrefix(d.NotesRef, "/") || dirOf(d.Name) != "ppt/slides" || !strings.HasPrefix(d.NotesRef, "../")) {
+				c.Count("pptx/notes-unconventional-location")
+				break
+			}
+		}
+	}
 	if p.Fmt == "epub" {
 		for _, d := range E {
 			if strings.Contains(d.Ref, "+") {
@@ -506,7 +664,7 @@ func hrefOps(c *hx.Ctx, from, n int) {
 }
 
 func Run(c *hx.Ctx) {
-	c.Rep.Rule = "packages: XLSX / PPTX / EPUB 2+3 written by the harness's own writers from a logical package = declared list (1-6 parts, each with a unique text token; states ok/missing/malformed/dangling/wrong-kind), decoy parts (unreferenced; some listed in rels/manifest but not declared), part paths nested/renamed/absolute/with dot segments, file numbers a random permutation of the declared order, ZIP member order another random permutation, optional parts (rels, sharedStrings, docProps, mimetype, NCX, nav) randomly absent; hrefs percent-encoded in 4 styles incl. space, unicode, '+', '%', '#'. href ops: structured (reference built from the member it denotes) and junk strings. non-trivial = the package opened with at least one part; distinct by op line"
+	c.Rep.Rule = "packages: XLSX / PPTX / EPUB 2+3 written by the harness's own writers from a logical package = declared list (1-6 parts, each with a unique text token; states ok/missing/malformed/dangling/wrong-kind), decoy parts (unreferenced; some listed in rels/manifest but not declared), XLSX sheetId values a random permutation (non-ascending, sparse) unrelated to position and to r:id, PPTX speaker-notes parts with their own unique token behind the slide's own relationship part (for readable, unreadable and decoy slides; conventional/renamed/absolute targets, numbered independently of the slides), part paths nested/renamed/absolute/with dot segments, file numbers a random permutation of the declared order, ZIP member order another random permutation, optional parts (rels, sharedStrings, docProps, mimetype, NCX, nav) randomly absent; hrefs percent-encoded in 4 styles incl. space, unicode, '+', '%', '#'. href ops: structured (reference built from the member it denotes) and junk strings. non-trivial = the package opened with at least one part; distinct by op line"
 	n := c.N(600, 9000)
 	only := os.Getenv("C18_FMT") // debugging aid: restrict the stream to one format
 	for i := 0; i < n; i++ {
